@@ -31,9 +31,11 @@ EXTENDS Naturals, FiniteSets, Sequences, TLC
 U == 1..4
 Arg == {2, 3}                   \* the argument set of in / containsAll / containsSome
 
+\* "...Halves": the property holds the numbers v + 0.5 and the argument is [2.5, 3.5]; "inIntsOnFractions": the property
+\* holds v + 0.7 and the argument is [2, 3] ("values can be booleans, numeric values, or strings", section 2.6)
 PerValue == {"minInclusive", "maxInclusive", "minExclusive", "maxExclusive", "minInclusiveFloat", "maxExclusiveFloat",
-             "minLength", "maxLength", "exactLength", "pattern", "in", "inNumbers"}
-SetKinds == {"containsAll", "containsSome"}
+             "minLength", "maxLength", "exactLength", "pattern", "in", "inNumbers", "inHalves", "inIntsOnFractions"}
+SetKinds == {"containsAll", "containsSome", "containsAllHalves", "containsSomeHalves"}
 CountKinds == {"minCount", "maxCount", "exactCount"}
 PairKinds == {"lessThanProperty", "lessThanOrEqualsToProperty", "equalsToProperty", "disjointWithProperty"}
 Kinds == PerValue \cup SetKinds \cup CountKinds \cup PairKinds
@@ -45,6 +47,7 @@ Good(k, v) ==
     [] k = "minInclusiveFloat" -> v >= 2 [] k = "maxExclusiveFloat" -> v < 4      \* arguments 1.5 and 3.5
     [] k = "minLength" -> v >= 2     [] k = "maxLength" -> v <= 3   [] k = "exactLength" -> v = 2
     [] k = "pattern" -> v \in Arg    [] k = "in" -> v \in Arg       [] k = "inNumbers" -> v \in Arg
+    [] k = "inHalves" -> v \in Arg   [] k = "inIntsOnFractions" -> FALSE      \* no v + 0.7 is one of 2, 3
 
 PairOp(k, a, b) ==
   CASE k = "lessThanProperty" -> a < b [] k = "lessThanOrEqualsToProperty" -> a <= b
@@ -55,8 +58,8 @@ Sat(k, S, T) ==
   CASE k \in PerValue -> \A v \in S : Good(k, v)
     \* "validation applies if property was defined" (scalar_subset.go, scalar_intersect_set.go): a node without
     \* the property is not judged by containsAll / containsSome -- a deliberate choice of the implementation
-    [] k = "containsAll" -> S = {} \/ Arg \subseteq S
-    [] k = "containsSome" -> S = {} \/ Arg \cap S # {}
+    [] k \in {"containsAll", "containsAllHalves"} -> S = {} \/ Arg \subseteq S
+    [] k \in {"containsSome", "containsSomeHalves"} -> S = {} \/ Arg \cap S # {}
     [] k = "minCount" -> Cardinality(S) >= 2
     [] k = "maxCount" -> Cardinality(S) <= 2
     [] k = "exactCount" -> Cardinality(S) = 2
